@@ -7,8 +7,8 @@ import (
 	"testing"
 	"time"
 
-	backoff "github.com/flant/shell-operator/pkg/utils/exponential_backoff"
 	"github.com/flant/shell-operator/pkg/task/queue"
+	backoff "github.com/flant/shell-operator/pkg/utils/exponential_backoff"
 	"pgregory.net/rapid"
 
 	"verif/internal/ev"
